@@ -410,3 +410,7 @@ PROPS["C14"]["floors"]["any"]["symbolic_histories_completed"] = 5000
 PROPS["C14"]["floors"]["any"]["rewrite_iterations"] = 2000
 PROPS["C08"]["quick"].append({"variant": "default", "cases": 8000, "worker_prop": "C14sym", "timeout": 600})
 PROPS["C08"]["thorough"].append({"variant": "default", "cases": 200000, "worker_prop": "C14sym", "timeout": 3000})
+
+# C15 cancelling rounds (C15j): one call adds e-nodes / classes for some matches and collapses pre-united parents for others
+PROPS["C15"]["floors"]["any"]["runs_cancelling_round"] = 1000
+# C10: the group is observed in full between increments (add_set / add alternately); membership also through a user inserted between the assertions (C10j)
